@@ -19,7 +19,9 @@ def _resolve(spec):
 		except AttributeError:
 			obj = getattr(obj, part)
 	for _ in range(10):
-		if isinstance(obj, (classmethod, staticmethod)):
+		if hasattr(obj, 'callback') and not hasattr(obj, '__code__'):
+			obj = obj.callback          # click.Command
+		elif isinstance(obj, (classmethod, staticmethod)):
 			obj = obj.__func__
 		elif isinstance(obj, property):
 			obj = obj.fget
